@@ -319,8 +319,9 @@ func rootErr(e error) error {
 	}
 }
 
-// stableAnim drops which error was returned (keeps nil / non-nil): on the pinned code it
-// depends on the arrival order of the results, i.e. on the schedule.
+// stableAnim drops which error was returned (keeps nil / non-nil); used only to choose the
+// violation key (frames / error presence versus WHICH error). Since fix 8f1f7ab the returned
+// error is that of the lowest failing frame and is compared everywhere, children included.
 func stableAnim(r string) string {
 	i := strings.Index(r, "|err=")
 	if i < 0 || strings.HasSuffix(r, "|err=nil") {
@@ -496,9 +497,6 @@ func childMain() {
 		r, err := w.run()
 		if err != nil {
 			r = "panic"
-		}
-		if w.Kind == "animc" {
-			r = stableAnim(r)
 		}
 		fmt.Printf("%s\t%s\n", w.Name, r)
 	}
@@ -719,9 +717,6 @@ func run(c *Ctx) {
 		webp.VerifResetOverrides()
 		if err != nil {
 			return "panic"
-		}
-		if w.Kind == "animc" {
-			r = stableAnim(r)
 		}
 		return r
 	}
